@@ -202,6 +202,12 @@ pub fn run(ctx: &mut Ctx, replay: Option<&[String]>) {
         tags.push(if iters == 0 { "iterations-0" } else if iters == 1 { "iterations-1" } else { "iterations-2+" });
         // non-trivial: at least one full iteration was executed (a trace exists)
         ctx.emit(&input, &o, iters >= 1, &tags);
+        // "every iteration limit": a frame that is known to converge is decoded again with the largest limit there is
+        if o.starts_with("S:") && iters >= 1 && warm.is_empty() && rng.chance(1, 4) {
+            let o2 = run_one(arith, sched, &h, &[], usize::MAX, &llrs);
+            let input2 = format!("c03 {} {} {} {}", arith, sched, sm(&h), fmt_call(usize::MAX, &llrs));
+            ctx.emit(&input2, &o2, true, &["limit-usize-max"]);
+        }
     }
     tree_cases(ctx);
 }
